@@ -564,13 +564,44 @@ impl Shape for Cased {
     }
 }
 
+// ------------------------------------------------------------------------------------ 17 Hosty
+
+/// Declared options spelled like the help request: `-h` for a host (the mysql/psql convention) and a
+/// repeatable `--help`. A declared option is part of the grammar and is read as that option; the other
+/// help spelling keeps its built-in meaning only where it is not declared (here: none is left).
+#[derive(ArgParse)]
+#[cli(help_path = "c20, hosty")]
+pub struct Hosty {
+    #[cli(short = "h", long = "host")]
+    pub host: String,
+    #[cli(short = "p", long = "port")]
+    pub port: Option<u16>,
+    #[cli(long = "help")]
+    pub topics: Vec<String>,
+    #[cli(short = "v")]
+    pub verbose: bool,
+}
+pub static HOSTY: Spec = Spec {
+    name: "Hosty",
+    opts: &[o(Some("h"), Some("host"), Kind::Req, Ty::String), o(Some("p"), Some("port"), Kind::Opt, Ty::U16), o(None, Some("help"), Kind::Many, Ty::String), o(Some("v"), None, Kind::Flag, Ty::Str)],
+    pos: &[],
+    sub: None,
+    help: help_of::<Hosty>,
+};
+impl Shape for Hosty {
+    const SPEC: &'static Spec = &HOSTY;
+    fn to_model(&self) -> Model {
+        Model { opts: vec![one(b(self.host.as_bytes())), opt(self.port.map(num)), self.topics.iter().map(|t| b(t.as_bytes())).collect(), flag(self.verbose)], pos: vec![], sub: None }
+    }
+}
+
 macro_rules! entry {
     ($t:ty, $class:literal) => {
         ShapeEntry { spec: <$t as Shape>::SPEC, class: $class, parse: run_shape::<$t> }
     };
 }
 
-pub static SHAPES: [ShapeEntry; 16] = [
+pub static SHAPES: [ShapeEntry; 17] = [
     entry!(ReqOpt, "shape-ReqOpt"),
     entry!(Aliases, "shape-Aliases"),
     entry!(Flags, "shape-Flags"),
@@ -587,6 +618,7 @@ pub static SHAPES: [ShapeEntry; 16] = [
     entry!(WithOptSub, "shape-WithOptSub"),
     entry!(ReqWithSub, "shape-ReqWithSub"),
     entry!(Cased, "shape-Cased"),
+    entry!(Hosty, "shape-Hosty"),
 ];
 
 pub fn shape_by_name(name: &str) -> Option<&'static ShapeEntry> {
